@@ -20,7 +20,7 @@ BASE_ASSUMPTIONS = [
 
 
 class Profile:
-    def __init__(self, prop, oracles, variants, rule, budget, post=None, assumptions=(), wall=20):
+    def __init__(self, prop, oracles, variants, rule, budget, post=None, assumptions=(), wall=20, runner=None):
         self.prop = prop
         self.oracles = oracles
         self.variants = variants      # list of (weight, profile dict)
@@ -30,6 +30,7 @@ class Profile:
         self.assumptions = BASE_ASSUMPTIONS + list(assumptions)
         self.components = COMPONENTS
         self.wall = wall
+        self.runner = runner
 
     def pick(self, r, tier):
         tot = sum(w for w, _ in self.variants)
@@ -45,6 +46,8 @@ class Profile:
         return P
 
     def run(self, S):
+        if self.runner is not None:
+            return self.runner(S, self.oracles, wall=self.wall)
         return run_spec(S, self.oracles, wall=self.wall)
 
 
@@ -77,6 +80,25 @@ def plant_bad_sample(S, r, tier):
     return S
 
 
+def meta_ps(S, r, tier):
+    """metamorphic sub-profile of C19: one unlimited PS node, threshold 1, continuous tapes, everybody leaves"""
+    if not S.pop("_meta", False):
+        return S
+    from .gen import mk_tape
+    S["n"] = 1
+    S["mode"] = "cont"
+    S["ps"], S["ps_thr"], S["servers"], S["qcap"] = [True], [1], [{"k": "inf"}], [INF]
+    for key in ("preempt", "disc", "spf", "ccm", "baulk", "batch", "ren", "cct", "tracker", "detector"):
+        S[key] = None
+    for c in S["classes"]:
+        S["arr"][c] = [mk_tape(r, "cont", zero=False)]
+        S["srv"][c] = [mk_tape(r, "cont", r.choice([0.5, 1, 2]), zero=False)]
+        S["routing"][c] = {"k": "matrix", "M": [[0.0]]}
+    S["plan"] = [["time", float(r.choice([10, 25]))]]
+    S["meta_ps"] = True
+    return S
+
+
 PROFILES = {}
 LEVEL_TEXT = {
     "*": "seeded exploration: the real engine is run on tens of thousands of generated networks, tapes and tie-break "
@@ -105,6 +127,7 @@ def _load():
     from .oracles.c13 import C13
     from .oracles.c17 import C17
     from .oracles.c18 import C18
+    from .oracles.c19 import C19, run_c19
 
     wide = profile()
     faulty = profile(f_zero=0.8, f_infarr=0.3, f_batch0=0.8, qcap=0.7, sched=0.35, renege=0.4, batch=0.4)
@@ -179,6 +202,12 @@ def _load():
     register(Profile("C18", [C18], [(1, dl)],
                      "distinct history digest; non-trivial = a deadlock was reached after >=1 blockage that was not yet a deadlock",
                      B(20000, 200000)))
+    psp = profile(ps=0.8, n=[1, 1, 2], k=[1, 2], prio=0.0, preempt=0.0, sched=0.0, slot=0.0, zero=0.0, inf=0.1, qcap=0.0, syscap=0.0,
+                  renege=0.0, exact=0.0, batch=0.35, ccm=0.2, cct=0.0, baulk=0.1, horizon=[10.0, 25.0])
+    register(Profile("C19", [C19], [(3, psp), (1, dict(psp, _meta=True))],
+                     "distinct history digest; non-trivial = >=1 event with >=2 sharers and >=1 completed PS service during which the occupancy changed; "
+                     "metamorphic sub-profile: unlimited PS node with threshold 1 vs FIFO single-server twin on the same tapes (continuous, tie-free)",
+                     B(30000, 300000), post=meta_ps, runner=run_c19))
     cap = profile(qcap=0.9, qcap_vals=[INF, 0, 0, 1, 2, 3], syscap=0.4, batch=0.5, baulk=0.4, renege=0.3, jockey=0.5, n=[1, 2, 2, 3], **NOREROUTE)
     register(Profile("C06", [C06], [(1, cap)],
                      "distinct history digest; non-trivial = >=1 rejection and >=1 admission into a node holding capacity-1",
